@@ -266,11 +266,13 @@ func collectTVarFTypeWithSet(visited SSet, ft FType) []string {
 			return slice.New[string]()
 		}), (func() []string {
 			SSetPut(visited, uname)
-			return frt.Pipe(frt.Pipe(utCases(ut), (func(_r0 []NameTypePair) []FType {
+			res := frt.Pipe(frt.Pipe(utCases(ut), (func(_r0 []NameTypePair) []FType {
 				return slice.Map(func(_v2 NameTypePair) FType {
 					return _v2.Ftype
 				}, _r0)
 			})), (func(_r0 []FType) []string { return slice.Collect(recurse, _r0) }))
+			SSetRemove(visited, uname)
+			return res
 		}))
 	case FType_FFunc:
 		fnt := _v9.Value
@@ -491,6 +493,7 @@ func transTVFTypeWithSet(visited SSet, transTV func(TypeVar) FType, ftp FType) F
 			nut := UnionType{Name: ut.Name, Targs: ntargs}
 			nui := UnionTypeInfo{Cases: ncases}
 			updateUniInfo(nut, nui)
+			SSetRemove(visited, uname)
 			return New_FType_FUnion(nut)
 		}))
 	default:
